@@ -105,10 +105,15 @@ Definition io_kind_fail (e : event) (a : addr) : bool :=
   | _ => false
   end.
 
+(** a write outside the volume is rejected before any replica is called *)
+Definition io_in_range (prev : obs) (e : event) : bool :=
+  match e with Write _ off len _ => (0 <=? off) && (off + len <=? o_size prev) | _ => true end.
+
 Definition c05_step (rf0 : nat) (prev : obs) (e : event) (cur : obs) : bool :=
   let att := in_service (o_replicas prev) in
   (* failed replicas are gone after the event (when the I/O reached the replicas at all) *)
   (if is_io e && quorum_ok rf0 (o_replicas prev) && negb (Nat.eqb (length (rw_of (o_replicas prev))) 0)
+      && io_in_range prev e
    then forallb (fun a => if io_kind_fail e a then negb (mem a (addrs_of (o_replicas cur))) else true) att
    else true)
   (* a minority failing does not surface: the survivors are a strict majority containing an RW *)
